@@ -259,7 +259,7 @@ def arbitrary_cases(draw, tier):
         j = draw(st.integers(0, m - 1))
         A[i] = A[j]
     elif kind == "scaled":
-        A = A * 10.0 ** draw(st.sampled_from([-12, -6, 6, 12]))
+        A = A * 10.0 ** draw(st.sampled_from([-12, -6, 6, 12, -100, 100]))
     return {"A": A, "kind": kind}
 
 
